@@ -182,3 +182,9 @@ def run(ck):
                   "no EPOLLONESHOT" if not uses else ("the explicit one-shot registration" if ok_ else
                   "EPOLLONESHOT is set in %s: the registration made through modifyFd/registerFd is silently one-shot" % fn_.base.rsplit("::", 1)[1]))
     ck.require(nfn >= 3, "Epoll registration functions found: %d" % nfn)
+
+    # ---------------- facts shared with C06 ----------------
+    ck.borrow("C06", ["C06-R7"], "C07-R7",
+              "what was pending for a stalled connection is delivered intact once it reads again: the bytes a send helper put on the wire "
+              "before the socket filled up are reported to asyncWriteImpl (one transmitting call per invocation), so the resumed write "
+              "continues behind them instead of repeating them", min_instances=2)
